@@ -60,6 +60,12 @@ def gen_tasks(tier, seed):
                     tasks.append({**base, "wt": "int", "edges": es, "node_flow": nf2, "node_mode": True, "ends": [v_]})
                     tasks.append({**base, "wt": "int", "edges": es, "node_flow": {x: (4 if x == v_ else 10 if x in G.successors(v_) else 4) for x in G.nodes()}, "node_mode": True, "starts": [v_]})
                     tasks.append({**base, "wt": "float", "edges": es, "node_flow": nf, "node_mode": True, "starts": [v_], "ends": [rng.choice(inner)]})
+    # self loops at nodes that have no other incoming (or no other outgoing) edge: such a node has incoming and outgoing edges,
+    # so conservation applies (its other edges must carry 0); only MinErrorFlow accepts these graphs
+    for name, edges in (("loop_at_first_and_last", [("v", "v", 5), ("v", "w", 3), ("w", "x", 4), ("x", "w", 1), ("x", "y", 3), ("y", "z", 6), ("z", "z", 2)]),
+                        ("loop_at_first", [("v", "v", 2), ("v", "w", 3), ("w", "t", 3)]), ("loop_at_last", [("s", "w", 3), ("w", "z", 3), ("z", "z", 4)])):
+        for wt in ("int", "float"):
+            tasks.append({"name": name, "edges": edges, "cyc": True, "starts": [], "ends": [], "ignored": [], "scaling": None, "node_mode": False, "lam": 0, "eps": None, "wt": wt})
     for i, t in enumerate(tasks):
         t["tid"] = i
     return tasks
